@@ -74,7 +74,7 @@ def run(ctx):
     rounds = 2500 if ctx.tier == "quick" else 40000
     t = Tally(ctx, "B-10 structural edits vs a reference list model of field texts",
               "generated documents (unique or duplicated names, attached/inner/free comments, with/without final newline) x "
-              "histories of 1-4 operations: order_first/last/before/after by name or (name, i), sort_fields, indexed and unindexed "
+              "histories of 1-4 operations: order_first/last/before/after by name (in any capitalisation) or (name, i), sort_fields (default, tie, case-sensitive and raising keys), indexed and unindexed "
               "set / delete, insert / append of paragraphs; byte comparison of the dump (a missing final newline may be supplied), "
               "re-parse, resolution of every (name, i); non-trivial = distinct (document, history)", "%d histories" % rounds)
     for _ in range(rounds):
@@ -97,7 +97,7 @@ def run(ctx):
             pi = rng.randrange(len(pars))
             p, mp = pars[pi], m.paras[pi]
             names = sorted({n for n, _, _ in mp})
-            op = rng.choice(["first", "last", "before", "after", "sort", "sort-tie", "set", "del", "insert", "append"])
+            op = rng.choice(["first", "last", "before", "after", "sort", "sort-tie", "sort-raise", "set", "del", "insert", "append"])
             exp_exc = None
             try:
                 if op in ("first", "last", "before", "after"):
@@ -151,6 +151,19 @@ def run(ctx):
                     ops.append([pi, "sort_fields", "key=" + which])
                     m.paras[pi] = sorted(mp, key=lambda e: kf(str(e[0])))      # the model sorts plain strings
                     p.sort_fields(key=kf)
+                elif op == "sort-raise":
+                    # a key function that fails on the n-th name: the exception reaches the caller and nothing has moved
+                    fail_at = rng.randint(1, max(1, len(mp)))
+                    calls = {"n": 0}
+
+                    def kf_raise(nm, calls=calls, fail_at=fail_at):
+                        calls["n"] += 1
+                        if calls["n"] >= fail_at:
+                            raise LookupError("no rank for %s" % nm)
+                        return str(nm)
+                    ops.append([pi, "sort_fields", "key raises LookupError at call %d" % fail_at])
+                    exp_exc = LookupError
+                    p.sort_fields(key=kf_raise)
                 elif op == "set":
                     name = rng.choice(names)
                     occ = m.occ(pi, name)
